@@ -8,6 +8,7 @@ the real command line is run under several hash seeds and target orders and must
 from __future__ import annotations
 
 import itertools
+import re
 import os
 import random
 import shutil
@@ -53,6 +54,7 @@ MAIN_BAD = [
 	'def main_f(a: int) -> int:\n\tb = a + 1\n\treturn b.no_attr\n',
 ]
 LIB = 'rogw.tranp.compatible.libralies.type'
+LIB_CLASSES = 'rogw.tranp.compatible.libralies.classes'
 
 
 def env_for_ref(config: str | None = None) -> dict:
@@ -170,7 +172,7 @@ def run_history(acc: Acc, r: random.Random, workdir: str, hid: int, n_ops: int) 
 
 	# scripted opening of every history: text that needs an include request, a submission refused while text is being emitted, then
 	# modules that need no include - whatever the first two left behind must not show in the others
-	forced = [('transpile', hp.names['r']), ('submit-bad', '__main__'), ('submit', '__main__'), ('transpile', hp.names['l']), ('transpile', hp.names['u'])]
+	forced = [('transpile', hp.names['r']), ('submit-bad', '__main__'), ('submit', '__main__'), ('transpile', hp.names['l']), ('transpile', hp.names['u']), ('reload-library', LIB_CLASSES), ('transpile', hp.names['r']), ('transpile', hp.names['l'])]
 	for step in range(n_ops + len(forced)):
 		x = r.random()
 		before = None
@@ -192,8 +194,11 @@ def run_history(acc: Acc, r: random.Random, workdir: str, hid: int, n_ops: int) 
 			target, op = '__main__', 'submit'
 		elif x < 0.82:
 			target, op = '__main__', 'submit-bad'
-		elif x < 0.9:
+		elif x < 0.87:
 			target, op = LIB, 'transpile'
+		elif x < 0.9:
+			# the stub library of the built-in classes is unloaded and loaded again: symbols of modules loaded earlier keep referring to it
+			target, op = LIB_CLASSES, 'reload-library'
 		elif x < 1.0:
 			target, op = r.choice(mods), 'type-queries'
 		log.append([op, target])
@@ -227,12 +232,21 @@ def run_history(acc: Acc, r: random.Random, workdir: str, hid: int, n_ops: int) 
 						return
 			elif op == 'load':
 				s.load(target)
+			elif op == 'reload-library':
+				s.unload(target)
+				s.load(target)
+				disturbed = True
 			elif op == 'unload':
 				if main_variant == 2 and '__main__' in loaded_now():
 					s.unload('__main__')
 					main_variant = None
-				for imp in importers[target]:
-					s.unload(imp)
+				if r.random() < 0.3:
+					# the dependency alone: its importers stay loaded (open finding importer-unusable-after-dependency-unload)
+					acc.see('op_variant', 'unload-dependency-alone')
+					log[-1].append('alone')
+				else:
+					for imp in importers[target]:
+						s.unload(imp)
 				s.unload(target)
 				disturbed = True
 			elif op == 'submit':
@@ -272,8 +286,21 @@ def run_history(acc: Acc, r: random.Random, workdir: str, hid: int, n_ops: int) 
 				acc.see('type_queries', 'done')
 		except Errors.Error as e:
 			if op in ('transpile', 'load', 'submit', 'type-queries'):
-				bad('operation-fails-in-session', f'{op} {target}: {type(e).__name__}: {str(e)[:300]} (the fresh process succeeds)')
-				return
+				key = next((k for k, v in hp.names.items() if v == target), None)
+				closure = {hp.names[d] for d in hp.closure_of(key)} if key else ({hp.names['l']} if main_variant == 2 or op == 'submit' else set())
+				now = set(loaded_now())
+				loaded_importers = [m for m in now if m in mods and any(hp.names[d] not in now for d in hp.closure_of(next(k for k, v in hp.names.items() if v == m)))]
+				missing = sorted(closure - now) if (target in now or op != 'load') else []
+				bad('operation-fails-in-session', f'{op} {target}: {type(e).__name__}: {str(e)[:300]} (the fresh process succeeds) [missing-dependencies={missing} importers-with-missing-dependencies={sorted(loaded_importers)}]')
+				if not (missing or loaded_importers):
+					return
+				# resynchronise: load what is missing again and go on with the history
+				for m in mods:
+					try:
+						s.load(m)
+					except Errors.Error:
+						return
+				continue
 		after = snapshot_others(s, [m for m in loaded_now()], touched)
 		acc.see('independence_checked', op, len(before))
 		for m, snap in before.items():
@@ -354,6 +381,15 @@ def cli_target_orders(acc: Acc, r: random.Random, workdir: str) -> None:
 
 
 def classify(v: dict) -> str | None:
+	"""Open finding 'importer-unusable-after-dependency-unload': Modules.unload(dependency) leaves its importers loaded; the next operation
+	that needs the dependency's symbols through such an importer raises UnresolvedSymbol / SymbolNotDefined, because Modules.load(importer)
+	returns the cached importer without loading its imports again. Matched only when the harness's own bookkeeping says that a module of
+	the failing module's import closure (or of a still loaded importer) is not loaded at that moment, and the error is one of those two."""
+	if v['kind'] != 'operation-fails-in-session':
+		return None
+	m = re.search(r'\[missing-dependencies=\[(.*?)\] importers-with-missing-dependencies=\[(.*?)\]\]', v['detail'])
+	if m and (m.group(1).strip() or m.group(2).strip()) and re.search(r': (UnresolvedSymbol|SymbolNotDefined): ', v['detail']):
+		return 'importer-unusable-after-dependency-unload'
 	return None
 
 
